@@ -424,6 +424,7 @@ void gen(uint64_t seed, int tier, sim::Plan &p) {
             op.thr = t;
             uint64_t k = r.below(100);
             int64_t sz = style == 1 ? hammer : style == 2 ? r.pick(sizes) : (r.chance(0.6) ? r.pick(sizes) : r.range(1, 600));
+            if (style != 1 && r.chance(0.002)) sz = r.pick(std::vector<int64_t>{65536, 300000, 1 << 20}); // rare very large (parent-served) block
             if (style == 1) {
                 if (k < 70) { op.kind = OP_ACQ; op.a = sz; }
                 else if (k < 90) { op.kind = OP_REL; op.a = r.range(0, 1000); }
